@@ -380,7 +380,7 @@ func (p *sparser) mul() *SExpr {
 }
 
 func (p *sparser) unary() *SExpr {
-	for _, o := range []string{"!", "-", "^"} {
+	for _, o := range []string{"!", "-", "^", "*"} {
 		if p.accept(o) {
 			return &SExpr{Kind: "unary", Op: o, Args: []*SExpr{p.unary()}}
 		}
